@@ -40,3 +40,18 @@ Print Assumptions C14_record_fields.
 Example C14_fresh_writer : forall enc crc,
   finish_file enc crc (new_writer []) = (new_writer [], Ok tt) /\ ws_inner (new_writer []) = WStorer (at_end []).
 Proof. intros. split; reflexivity. Qed.
+
+(* ---------- and the reader finds exactly the copied bytes.
+   The sink after the copy is  b ++ local header ++ raw  (C14_raw_copy_exact); whatever is written behind it later,
+   the reader's find_content on a record with that header offset and compressed size (the central record the writer
+   emits: C01_central_record_roundtrip) returns the position right behind the header, and the raw reader it sets up
+   (Take over the source from there, limit = compressed size) yields exactly the source bytes: by_index_raw of the
+   destination equals by_index_raw of the source, for every method code and every size. *)
+From ZipV Require Import Proofs.RawCopyRead.
+Theorem C14_copied_bytes_found : forall b hdr raw rest src name g,
+  local_header_chunks (raw_file src name (len b) 0) = Ok hdr -> len name <= 65535 ->
+  f_header_start g = len b -> f_csize g = len raw -> len b + len (concat hdr) < 2 ^ 64 ->
+  exists ds t, find_content (b ++ concat hdr ++ raw ++ rest) g = Ok (ds, t) /\ ds = len b + len (concat hdr) /\
+               take (f_csize g) (s_data (t_inner t)) = raw /\ t_limit t = len raw.
+Proof. exact raw_copy_found. Qed.
+Print Assumptions C14_copied_bytes_found.
